@@ -71,7 +71,7 @@ def run(ctx):
     files = own * 20 + gsel.sample(repo_m, min(len(repo_m), 400)) + repo_p
     if len(dictionary) < 40:
         ctx.inconc("keyword dictionary too small: %d" % len(dictionary))
-    n = ctx.n(400, 200000)
+    n = ctx.n(400, 20000)
     ctx.cov["rule"] = ("execution = (seed .mtest/.ptest file with placeholders bound, mutation kind); distinct = distinct sha1 of the mutated input; "
                        "non-trivial = the input differs from its bound seed")
     ctx.cov.update({"seed_files": len(set(files)), "dictionary_keywords": len(dictionary)})
@@ -130,7 +130,7 @@ def run(ctx):
         kws = sorted({m.group(1).encode() for m in re.finditer(r"(@[A-Za-z_0-9]+)", r.out + r.err)})
         seedf = next((f for f in own if f.suffix == ext), None)
         real = bind(seedf.read_bytes(), libs, gs) if seedf is not None else b"@Author x;\n"
-        for label, data in fuzz.keyword_sweep(gs, kws, (b"@Author x;", real), ctx.thorough):
+        for label, data in fuzz.keyword_sweep(gs, kws, (b"@Author x;", real), ctx.thorough, nshapes=2):
             sweep.append((ext, label, data))
     # self-referential definitions: every statement of the corpus of the form  @Keyword<...> 'name' 'expression'  (function
     # evolutions, @Real, material properties given by formulae...) is rewritten so that the expression refers to the name it defines
